@@ -300,6 +300,55 @@ Proof.
   split; [intros Hh Hz; exact (inv_loser p i Hi Hs Hh Hz) | exact (inv_loser_progress p i Hi)].
 Qed.
 
+(* ---- "ever": on serialised schedules only one of the two connections is Established at any time of the history *)
+Lemma along_app_l : forall g l1 l2 p, along g p (l1 ++ l2) = true -> along g p l1 = true.
+Proof.
+  intros g l1 l2. induction l1 as [|l l1 IH]; intros p H; [reflexivity|].
+  cbn [app along] in *. apply andb_prop in H. destruct H as [H1 H2]. rewrite H1. cbn.
+  destruct (step p l) as [p'|]; [apply IH; exact H2 | reflexivity].
+Qed.
+
+Lemma run_app : forall l1 l2 p p1 p2, run p l1 = Some p1 -> run p1 l2 = Some p2 -> run p (l1 ++ l2) = Some p2.
+Proof.
+  induction l1 as [|l l1 IH]; intros l2 p p1 p2 H1 H2; cbn in *.
+  - injection H1 as ->. exact H2.
+  - destruct (step p l) as [p'|]; [|discriminate]. exact (IH l2 p' p1 p2 H1 H2).
+Qed.
+
+Lemma spec_run_app : forall c l1 l2 s, spec_run c s (l1 ++ l2) = spec_run c (spec_run c s l1) l2.
+Proof. intros c l1 l2. induction l1 as [|l l1 IH]; intro s; cbn; [reflexivity | apply IH]. Qed.
+
+Lemma spec_est_stable_step : forall c s l i, sget s i = SEstablished -> sget (spec_step c s l) i = SEstablished.
+Proof.
+  intros c [a b] l i H.
+  destruct l as [| |k id|k|k|k|k]; try destruct k; destruct i; cbn in H; subst; cbn;
+    try reflexivity;
+    repeat match goal with
+           | |- context [if ?x then _ else _] => destruct x
+           | |- context [match ?x with SNone => _ | _ => _ end] => destruct x
+           end; reflexivity.
+Qed.
+
+Lemma spec_est_stable_run : forall c ls s i, sget s i = SEstablished -> sget (spec_run c s ls) i = SEstablished.
+Proof.
+  intros c ls. induction ls as [|l ls IH]; intros s i H; cbn; [exact H|].
+  apply IH. apply spec_est_stable_step. exact H.
+Qed.
+
+Theorem only_one_ever_partial : forall c l1 l2 p1 p2 i j,
+  run (init c) l1 = Some p1 -> run p1 l2 = Some p2 -> serialised (init c) (l1 ++ l2) = true ->
+  est (get p1 i) = true -> est (get p2 j) = true -> i = j.
+Proof.
+  intros c l1 l2 p1 p2 i j H1 H2 Hg Ei Ej.
+  pose proof (along_app_l _ _ _ _ Hg) as Hg1.
+  pose proof (survivor_is_rfc_choice_partial c l1 p1 i H1 Hg1 Ei) as Si.
+  pose proof (survivor_is_rfc_choice_partial c (l1 ++ l2) p2 j (run_app _ _ _ _ _ H1 H2) Hg Ej) as Sj.
+  pose proof (rfc_at_most_one c (l1 ++ l2)) as Safe.
+  rewrite spec_run_app in Sj, Safe.
+  pose proof (spec_est_stable_run c l2 _ i Si) as Si2.
+  destruct i, j; try reflexivity; exfalso; apply Safe; cbn in Si2, Sj; rewrite Si2, Sj; split; reflexivity.
+Qed.
+
 (* ---- the two classes of schedules outside the guard --------------------------------------------- *)
 Definition w_cfg : cfg := mkcfg 5 100 200.
 
